@@ -125,7 +125,7 @@ Theorem failure_blocks c o f :
   c_failure c = Some f -> single_data_op o = true -> v1_name_ok flavour (name_of o) = true ->
   (match o with OBatchGet _ _ => flavour = V2 | _ => True end) ->
   fst (step c o) = c /\
-  o_res (snd (step c o)) = RErr (match o with OTransact => ForcedFailure | _ => failure_err f end).
+  o_res (snd (step c o)) = RErr (failure_err f).
 Proof.
   intros Hf Hd Hn Hb. destruct o; try discriminate; cbn [Client.step name_of] in *.
   - unfold put_item, preamble. rewrite Hn, Hf. cbn. auto.
